@@ -134,14 +134,27 @@ Record Genv (s : st) : Prop := mkG {
   g_noleak : forall o, ~ In (HLeak, o) (refs s)
 }.
 
+(* what a transition that is not ours leaves alone: the references we hold, our pointers, which objects
+   are tuples, and the items of every tuple that is still alive afterwards *)
 Definition same_own (s s' : st) : Prop :=
-  (forall v, own_count s' v = own_count s v) /\ venv s' = venv s.
+  (forall v, own_count s' v = own_count s v) /\ venv s' = venv s /\
+  incl (tuples s) (tuples s') /\ incl (freed s) (freed s') /\
+  (forall c o, In c (tuples s) -> In (HItem c, o) (refs s) -> ~ In c (freed s') -> In (HItem c, o) (refs s')).
 
 Lemma same_own_refl s : same_own s s.
-Proof. split; auto. Qed.
+Proof.
+  split; [auto|]. split; [auto|]. split; [apply incl_refl|]. split; [apply incl_refl|]. auto.
+Qed.
 
 Lemma same_own_trans a b c : same_own a b -> same_own b c -> same_own a c.
-Proof. intros [H1 H2] [H3 H4]. split; [intros v; rewrite H3; auto | congruence]. Qed.
+Proof.
+  intros [H1 [H2 [H3 [H4 H5]]]] [K1 [K2 [K3 [K4 K5]]]]. repeat split.
+  - intros v. rewrite K1. auto.
+  - congruence.
+  - eapply incl_tran; eauto.
+  - eapply incl_tran; eauto.
+  - intros x o Hx Hi Nf. apply K5; [apply H3; exact Hx | apply H5; auto; intros F; apply Nf; apply K4; exact F | exact Nf].
+Qed.
 
 Lemma has_leak_false s : has_leak s = false <-> forall o, ~ In (HLeak, o) (refs s).
 Proof.
@@ -197,10 +210,33 @@ Qed.
 Lemma release_venv s r : venv (release s r) = venv s.
 Proof. unfold release. destruct (has_ref _ _); reflexivity. Qed.
 
-Lemma release_other s r : In r (refs s) -> (forall v, is_var v r = false) -> same_own s (release s r).
+Lemma release_tuples s r : tuples (release s r) = tuples s.
+Proof. unfold release. destruct (has_ref _ _); reflexivity. Qed.
+
+Lemma release_freed s r : incl (freed s) (freed (release s r)).
+Proof. unfold release. destruct (has_ref _ _); cbn; [apply incl_refl | apply incl_tl, incl_refl]. Qed.
+
+Lemma In_orphan_keep x c l : In x l -> fst x <> HItem c -> In x (orphan c l).
 Proof.
-  intros Hr Hn. split; [|apply release_venv].
-  intros v. pose proof (release_count s r v Hr) as C. rewrite Hn in C. lia.
+  intros Hi N. unfold orphan. apply in_map_iff. exists x. split; auto.
+  destruct (holder_eqb (fst x) (HItem c)) eqn:E; auto. apply holder_eqb_eq in E. contradiction.
+Qed.
+
+(* an item of a container that is not freed by this release survives it *)
+Lemma release_item_kept s r c o : In (HItem c, o) (refs s) -> (HItem c, o) <> r ->
+  ~ In c (freed (release s r)) -> In (HItem c, o) (refs (release s r)).
+Proof.
+  intros Hi N Nf. unfold release in *. destruct (has_ref (remove1 r (refs s)) (snd r)); cbn in *.
+  - apply In_remove1_neq; auto.
+  - apply In_orphan_keep; [apply In_remove1_neq; auto|]. cbn. intros E. inversion E; subst. apply Nf. left; auto.
+Qed.
+
+Lemma release_other s r : In r (refs s) -> (forall v, is_var v r = false) ->
+  (forall c o, r = (HItem c, o) -> ~ In c (tuples s)) -> same_own s (release s r).
+Proof.
+  intros Hr Hn Ht. split; [|split; [apply release_venv|split; [rewrite release_tuples; apply incl_refl|split; [apply release_freed|]]]].
+  - intros v. pose proof (release_count s r v Hr) as C. rewrite Hn in C. lia.
+  - intros c o Hc Hi Nf. apply release_item_kept; auto. intros E. subst r. apply (Ht c o eq_refl). exact Hc.
 Qed.
 
 (* adding a reference to a live object *)
@@ -244,43 +280,82 @@ Proof.
 Qed.
 
 (* ------------------------------------------------------------------ the environment cannot hurt us *)
+Lemma add_ref_same s h o : (forall v, h <> HVar v) -> same_own s (add_ref s (h, o)).
+Proof.
+  intros N. split; [|split; [reflexivity|split; [apply incl_refl|split; [apply incl_refl|]]]].
+  - intros v. rewrite add_ref_count. rewrite (holder_eqb_neq h (HVar v)) by auto. lia.
+  - intros c x Hc Hi _. right. exact Hi.
+Qed.
+
+Lemma alloc_G s h tup items : Genv s -> (forall v, h = HVar v -> False) -> h <> HLeak -> Genv (fst (alloc s h tup items)).
+Proof.
+  intros G Nv Nl. unfold alloc. cbn [fst].
+  assert (It : forall x, In x (map (fun i => (HItem (next s), i)) (filter (fun i => has_ref (refs s) i) items)) ->
+                 exists i, x = (HItem (next s), i) /\ has_ref (refs s) i = true).
+  { intros x Hx. apply in_map_iff in Hx. destruct Hx as [i [E Hi]]. apply filter_In in Hi. exists i. split; [auto | tauto]. }
+  constructor; cbn.
+  - intros h0 o [H|H]; [inversion H; subst; intros F; apply (g_fbound s G) in F; lia|].
+    apply in_app_or in H. destruct H as [H|H]; [|eapply g_live; eauto].
+    destruct (It _ H) as [i [E L]]. inversion E; subst. apply (live_facts s i G L).
+  - intros h0 o [H|H]; [inversion H; subst; lia|].
+    apply in_app_or in H. destruct H as [H|H]; [|apply (g_bound s G) in H; lia].
+    destruct (It _ H) as [i [E L]]. inversion E; subst. destruct (live_facts s i G L). lia.
+  - intros o H. apply (g_fbound s G) in H. lia.
+  - intros v o [H|H]; [inversion H; subst; exfalso; eapply Nv; eauto|].
+    apply in_app_or in H. destruct H as [H|H]; [|eapply g_var; eauto].
+    destruct (It _ H) as [i [E L]]. inversion E.
+  - intros o [H|H]; [inversion H; congruence|].
+    apply in_app_or in H. destruct H as [H|H]; [|eapply g_noleak; eauto].
+    destruct (It _ H) as [i [E L]]. inversion E.
+Qed.
+
+Lemma filter_var_items v o its l :
+  filter (is_var v) (map (fun i : obj => (HItem o, i)) its ++ l) = filter (is_var v) l.
+Proof. induction its as [|i its IH]; cbn; auto. Qed.
+
+Lemma alloc_same s h tup items : (forall v, h <> HVar v) -> same_own s (fst (alloc s h tup items)).
+Proof.
+  intros N. unfold alloc. cbn [fst]. split; [|split; [reflexivity|split; [|split]]]; cbn [tuples freed refs].
+  - intros v. unfold own_count. cbn [refs filter fst]. rewrite (holder_eqb_neq h (HVar v)) by auto.
+    change (fun p : holder * obj => holder_eqb (fst p) (HVar v)) with (is_var v). rewrite filter_var_items. reflexivity.
+  - destruct tup; [apply incl_tl|]; apply incl_refl.
+  - apply incl_refl.
+  - intros c o Hc Hi _. right. apply in_or_app. right. exact Hi.
+Qed.
+
 Lemma env_step_ok s x : Genv s -> Genv (env_step s x) /\ same_own s (env_step s x).
 Proof.
-  intros G. destruct x; cbn.
+  intros G. destruct x; cbn [env_step].
   - (* XAlloc *)
-    split.
-    + constructor; cbn; intros.
-      * destruct H as [H|H]; [inversion H; subst; intros F; apply (g_fbound s G) in F; lia | eapply g_live; eauto].
-      * destruct H as [H|H]; [inversion H; subst; lia | apply (g_bound s G) in H; lia].
-      * apply (g_fbound s G) in H; lia.
-      * destruct H as [H|H]; [inversion H | eapply g_var; eauto].
-      * intros [H|H]; [inversion H | eapply g_noleak; eauto].
-    + split; auto.
+    split; [apply alloc_G; auto; intros; discriminate | apply alloc_same; intros; discriminate].
   - (* XIncExt *)
     destruct (live s o) eqn:L; [|split; [auto|apply same_own_refl]].
     destruct (live_facts s o G L). split.
     + apply add_ref_G; auto; intros; discriminate.
-    + split; auto; intros v; rewrite add_ref_count; cbn; lia.
+    + apply add_ref_same. intros; discriminate.
   - (* XDecExt *)
     destruct (has (refs s) (HExt, o)) eqn:H; [|split; [auto|apply same_own_refl]].
-    apply has_In in H. split; [apply release_G; auto | apply release_other; auto].
+    apply has_In in H. split; [apply release_G; auto | apply release_other; auto; intros; discriminate].
   - (* XClearSlot *)
     destruct (slot_get s s0) eqn:E; [|split; [auto|apply same_own_refl]].
-    apply slot_get_In in E. split; [apply release_G; auto | apply release_other; auto].
+    apply slot_get_In in E. split; [apply release_G; auto | apply release_other; auto; intros; discriminate].
   - (* XSetSlot *)
     destruct (slot_get s s0); [split; [auto|apply same_own_refl]|].
     destruct (live s o) eqn:L; [|split; [auto|apply same_own_refl]].
     destruct (live_facts s o G L). split.
     + apply add_ref_G; auto; intros; discriminate.
-    + split; auto; intros v; rewrite add_ref_count; cbn; lia.
+    + apply add_ref_same. intros; discriminate.
   - (* XAddItem *)
-    destruct (live s c && live s o) eqn:L; [|split; [auto|apply same_own_refl]].
-    apply andb_true_iff in L. destruct L as [_ L]. destruct (live_facts s o G L). split.
+    destruct (live s c && live s o && negb (mem c (tuples s))) eqn:L; [|split; [auto|apply same_own_refl]].
+    apply andb_true_iff in L. destruct L as [L _]. apply andb_true_iff in L. destruct L as [_ L].
+    destruct (live_facts s o G L). split.
     + apply add_ref_G; auto; intros; discriminate.
-    + split; auto; intros v; rewrite add_ref_count; cbn; lia.
+    + apply add_ref_same. intros; discriminate.
   - (* XDelItem *)
-    destruct (has (refs s) (HItem c, o)) eqn:H; [|split; [auto|apply same_own_refl]].
-    apply has_In in H. split; [apply release_G; auto | apply release_other; auto].
+    destruct (has (refs s) (HItem c, o) && negb (mem c (tuples s))) eqn:H; [|split; [auto|apply same_own_refl]].
+    apply andb_true_iff in H. destruct H as [H Nt]. apply has_In in H. apply negb_true_iff in Nt. apply mem_false in Nt.
+    split; [apply release_G; auto | apply release_other; auto].
+    intros c0 o0 E. inversion E; subst. exact Nt.
 Qed.
 
 Lemma env_run_ok xs : forall s, Genv s -> Genv (env_run s xs) /\ same_own s (env_run s xs).
@@ -296,12 +371,22 @@ Definition VI (x : vstat) (s : st) (v : var) : Prop :=
   match x with
   | SOwned n => own_count s v = S n
   | SFresh => own_count s v = 0 /\ exists o, lookup (venv s) v = Some o /\ has_ref (refs s) o = true
+  | SVia _ => own_count s v = 0
   | SStale => own_count s v = 0
   end.
+
+(* v points to an item of the tuple t points to *)
+Definition TV (s : st) (v t : var) : Prop :=
+  exists o c, lookup (venv s) v = Some o /\ lookup (venv s) t = Some c /\ In c (tuples s) /\ In (HItem c, o) (refs s).
+
+(* the tuple-item borrows: good while the tuple is owned *)
+Definition VIA (d : dst) (s : st) : Prop :=
+  forall v t, stat d v = SVia t -> is_owned (stat d t) = true -> TV s v t.
 
 Record Inv (d : dst) (s : st) : Prop := mkInv {
   i_g : Genv s;
   i_v : forall v, VI (stat d v) s v;
+  i_via : VIA d s;
   i_e : forall sl, In sl (d_empty d) -> slot_get s sl = None;
   i_f : forall sl, In sl (d_full d) -> slot_get s sl <> None
 }.
@@ -317,13 +402,110 @@ Proof.
   destruct x; cbn; destruct (Nat.eqb v w); auto.
 Qed.
 
+Lemma stat_unvia t d w :
+  stat (unvia t d) w = match stat d w with SVia u => if Nat.eqb u t then SStale else SVia u | x => x end.
+Proof.
+  unfold stat, unvia. cbn. induction (d_stat d) as [|[k x] l IH]; cbn; auto.
+  destruct (Nat.eqb w k) eqn:E.
+  - destruct x; cbn; rewrite ?E; auto. destruct (Nat.eqb t0 t); cbn; rewrite E; auto.
+  - destruct x; cbn; rewrite ?E; auto. destruct (Nat.eqb t0 t); cbn; rewrite E; auto.
+Qed.
+
+Lemma stat_forget d w : stat (forget d) w = match stat d w with SVia _ => SStale | x => x end.
+Proof.
+  unfold stat, forget. cbn. induction (d_stat d) as [|[k x] l IH]; cbn; auto.
+  destruct (Nat.eqb w k) eqn:E; destruct x; cbn; rewrite ?E; auto.
+Qed.
+
+Lemma stat_reassign d v x w : stat (reassign d v x) w = if Nat.eqb w v then x else stat (unvia v d) w.
+Proof. unfold reassign. apply stat_set_stat. Qed.
+
+Lemma owned_unvia t d w : is_owned (stat (unvia t d) w) = is_owned (stat d w).
+Proof. rewrite stat_unvia. destruct (stat d w); auto. destruct (Nat.eqb t0 t); auto. Qed.
+
+Lemma VI_unvia t d s w : VI (stat d w) s w -> VI (stat (unvia t d) w) s w.
+Proof. rewrite stat_unvia. destruct (stat d w); auto. destruct (Nat.eqb t0 t); auto. Qed.
+
+(* how a step may change the tuple-item borrows: none is created, none is revived *)
+Definition via_sub (d d' : dst) : Prop :=
+  forall v t, stat d' v = SVia t -> is_owned (stat d' t) = true -> stat d v = SVia t /\ is_owned (stat d t) = true.
+
+Lemma via_sub_refl d : via_sub d d.
+Proof. intros v t H1 H2. auto. Qed.
+
+Lemma via_sub_trans a b c : via_sub a b -> via_sub b c -> via_sub a c.
+Proof. intros H K v t H1 H2. destruct (K v t H1 H2). auto. Qed.
+
+Lemma via_sub_set d v x : (forall t, x <> SVia t) -> (is_owned x = true -> is_owned (stat d v) = true) ->
+  via_sub d (set_stat d v x).
+Proof.
+  intros Nx Ox w t H1 H2. rewrite stat_set_stat in H1, H2.
+  destruct (Nat.eqb w v) eqn:E1; [exfalso; eapply Nx; eauto|]. split; auto.
+  destruct (Nat.eqb t v) eqn:E2; auto. apply Nat.eqb_eq in E2. subst. auto.
+Qed.
+
+Lemma via_sub_reassign d v x : (forall t, x <> SVia t) -> via_sub d (reassign d v x).
+Proof.
+  intros Nx w t H1 H2. rewrite stat_reassign in H1, H2.
+  destruct (Nat.eqb w v) eqn:E1; [exfalso; eapply Nx; eauto|].
+  rewrite stat_unvia in H1. destruct (stat d w) eqn:Es; try discriminate.
+  destruct (Nat.eqb t0 v) eqn:E3; [discriminate|]. inversion H1; subst t0. split; auto.
+  rewrite E3 in H2. rewrite owned_unvia in H2. exact H2.
+Qed.
+
+Lemma via_sub_invalidate d : via_sub d (invalidate d).
+Proof.
+  intros w t H1 H2. rewrite stat_invalidate in H1, H2. destruct (stat d w) eqn:E; try discriminate.
+  cbn in H1. inversion H1; subst. split; auto. destruct (stat d t); auto.
+Qed.
+
+Lemma via_sub_forget d : via_sub d (forget d).
+Proof. intros w t H1 H2. rewrite stat_forget in H1. destruct (stat d w); discriminate. Qed.
+
+Lemma via_sub_slots d e f : via_sub d (mkD (d_stat d) e f).
+Proof. intros w t H1 H2. auto. Qed.
+
+Lemma via_sub_drop d v after d1 : drop_one d v after = Some d1 -> (forall t, after <> SVia t) ->
+  is_owned after = false -> via_sub d d1.
+Proof.
+  unfold drop_one. intros H Na Oa. destruct (stat d v) as [| | |[|n]] eqn:Ev; try discriminate; inversion H; subst.
+  - apply (via_sub_reassign d v after Na).
+  - apply via_sub_set; [intros; discriminate|]. rewrite Ev. auto.
+Qed.
+
+(* counts only: what survives a may-call point *)
+Definition CI (d : dst) (s : st) : Prop :=
+  forall w, match stat d w with SOwned n => own_count s w = S n | _ => own_count s w = 0 end.
+
+Lemma VI_CI d s : (forall w, VI (stat d w) s w) -> CI d s.
+Proof. intros H w. specialize (H w). destruct (stat d w); cbn in H; tauto. Qed.
+
+(* re-establishing the borrows after a transition *)
+Lemma VIA_transfer d d' s s' : VIA d s -> Genv s' -> CI d' s' -> via_sub d d' ->
+  (forall v t, stat d' v = SVia t -> lookup (venv s') v = lookup (venv s) v /\ lookup (venv s') t = lookup (venv s) t) ->
+  incl (tuples s) (tuples s') ->
+  (forall c o, In c (tuples s) -> In (HItem c, o) (refs s) -> ~ In c (freed s') -> In (HItem c, o) (refs s')) ->
+  VIA d' s'.
+Proof.
+  intros V G C Sub Ev It Ik v t H1 H2. destruct (Sub v t H1 H2) as [K1 K2].
+  destruct (V v t K1 K2) as [o [c [L1 [L2 [T Hi]]]]]. destruct (Ev v t H1) as [E1 E2].
+  exists o, c. rewrite E1, E2. repeat split; auto. apply Ik; auto.
+  specialize (C t). destruct (stat d' t) as [| | |n] eqn:Et; try discriminate.
+  destruct (count_pos_In t s') as [c' Hc]; [lia|]. pose proof (g_var s' G t c' Hc) as Lc.
+  rewrite E2, L2 in Lc. inversion Lc; subst c'. eapply g_live; eauto.
+Qed.
+
 Lemma VI_demote x s s' v : VI x s v -> own_count s' v = own_count s v -> VI (demote x) s' v.
 Proof. destruct x; cbn; intros H E; rewrite E; tauto. Qed.
 
 Lemma Inv_invalidate d s s' : Inv d s -> Genv s' -> same_own s s' -> Inv (invalidate d) s'.
 Proof.
-  intros I G [So Sv]. constructor; auto; try (cbn; tauto).
-  intros v. rewrite stat_invalidate. eapply VI_demote; [apply (i_v d s I) | apply So].
+  intros I G [So [Sv [St [Sf Sk]]]].
+  assert (V : forall v, VI (stat (invalidate d) v) s' v).
+  { intros v. rewrite stat_invalidate. eapply VI_demote; [apply (i_v d s I) | apply So]. }
+  constructor; auto; try (cbn; tauto).
+  apply (VIA_transfer d (invalidate d) s s' (i_via d s I) G (VI_CI _ _ V) (via_sub_invalidate d)); auto.
+  intros; rewrite Sv; auto.
 Qed.
 
 Lemma Inv_env d s xs : Inv d s -> Inv (invalidate d) (env_run s xs).
@@ -338,8 +520,9 @@ Lemma valid_deref d s v : Inv d s -> valid d v = true ->
 Proof.
   intros I V. unfold valid in V. pose proof (i_v d s I v) as H. pose proof (i_g d s I) as G.
   assert (K : exists o, lookup (venv s) v = Some o /\ has_ref (refs s) o = true).
-  { destruct (stat d v); cbn in H; try discriminate.
+  { destruct (stat d v) eqn:Es; cbn in H; try discriminate.
     - destruct H as [_ [o [H1 H2]]]. eauto.
+    - destruct (i_via d s I v t Es V) as [o [c [L1 [L2 [T Hi]]]]]. exists o. split; auto. apply has_ref_In. eauto.
     - destruct (count_pos_In v s) as [o Ho]; [lia|]. exists o. split; [eapply g_var; eauto|].
       apply has_ref_In. eauto. }
   destruct K as [o [K1 K2]]. exists o. pose proof K2 as K3. apply has_ref_In in K3. destruct K3 as [h K3].
@@ -436,6 +619,9 @@ Qed.
 Lemma hand_over_moved s v o h : In (HVar v, o) (refs s) -> hand_over s v o h = Some (moved s v o h).
 Proof. intros H. unfold hand_over. apply has_In in H. rewrite H. reflexivity. Qed.
 
+Lemma moved_item s v o h c x : In (HItem c, x) (refs s) -> In (HItem c, x) (refs (moved s v o h)).
+Proof. intros H. cbn. right. apply In_remove1_neq; auto. discriminate. Qed.
+
 (* the status of v after giving up one reference *)
 Lemma drop_one_inv d s v after d1 o h :
   Inv d s -> drop_one d v after = Some d1 -> lookup (venv s) v = Some o -> In (HVar v, o) (refs s) ->
@@ -443,19 +629,27 @@ Lemma drop_one_inv d s v after d1 o h :
   (after = SFresh \/ after = SStale) ->
   Genv (moved s v o h) /\
   (forall w, VI (stat d1 w) (moved s v o h) w) /\
+  VIA d1 (moved s v o h) /\
   venv (moved s v o h) = venv s.
 Proof.
-  intros I Dr Lv Hi Hl Hv Ha. split; [apply moved_G; auto; apply I|]. split; [|reflexivity].
-  intros w. pose proof (moved_count s v o h w Hi Hv) as C. pose proof (i_v d s I w) as Hw.
-  unfold drop_one in Dr. destruct (stat d v) as [| |[|n]] eqn:Ev; try discriminate; inversion Dr; subst d1; clear Dr;
-    rewrite stat_set_stat; destruct (Nat.eqb w v) eqn:Ew.
-  - apply Nat.eqb_eq in Ew. subst w. rewrite Ev in Hw. cbn in Hw.
-    destruct Ha as [-> | ->]; cbn [VI].
-    + split; [lia|]. exists o. split; auto. apply has_ref_In. exists h. left; auto.
-    + lia.
-  - eapply VI_frame; eauto; [lia | intros; apply moved_has_ref; auto].
-  - apply Nat.eqb_eq in Ew. subst w. rewrite Ev in Hw. cbn in Hw. cbn [VI]. lia.
-  - eapply VI_frame; eauto; [lia | intros; apply moved_has_ref; auto].
+  intros I Dr Lv Hi Hl Hv Ha.
+  assert (G' : Genv (moved s v o h)) by (apply moved_G; auto; apply I).
+  assert (V' : forall w, VI (stat d1 w) (moved s v o h) w).
+  { intros w. pose proof (moved_count s v o h w Hi Hv) as C. pose proof (i_v d s I w) as Hw.
+    unfold drop_one in Dr. destruct (stat d v) as [| | |[|n]] eqn:Ev; try discriminate; inversion Dr; subst d1; clear Dr;
+      rewrite stat_set_stat; destruct (Nat.eqb w v) eqn:Ew.
+    - apply Nat.eqb_eq in Ew. subst w. rewrite Ev in Hw. cbn in Hw.
+      destruct Ha as [-> | ->]; cbn [VI].
+      + split; [lia|]. exists o. split; auto. apply has_ref_In. exists h. left; auto.
+      + lia.
+    - apply VI_unvia. eapply VI_frame; eauto; [lia | intros; apply moved_has_ref; auto].
+    - apply Nat.eqb_eq in Ew. subst w. rewrite Ev in Hw. cbn in Hw. cbn [VI]. lia.
+    - eapply VI_frame; eauto; [lia | intros; apply moved_has_ref; auto]. }
+  split; auto. split; auto. split; [|reflexivity].
+  apply (VIA_transfer d d1 s (moved s v o h) (i_via d s I) G' (VI_CI _ _ V')); auto.
+  - eapply via_sub_drop; eauto; destruct Ha as [-> | ->]; try (intros; discriminate); reflexivity.
+  - apply incl_refl.
+  - intros c x _ Hx _. apply moved_item; auto.
 Qed.
 
 (* changing the holder of an existing reference that is not ours *)
@@ -481,18 +675,18 @@ Proof.
   apply (f_equal (@length ref)). apply filter_remove1_neg. cbn. apply holder_eqb_neq; auto.
 Qed.
 
-(* counts only: what survives a may-call point *)
-Definition CI (d : dst) (s : st) : Prop :=
-  forall w, match stat d w with SOwned n => own_count s w = S n | _ => own_count s w = 0 end.
-
 Lemma Inv_CI d s : Inv d s -> CI d s.
-Proof. intros I w. pose proof (i_v d s I w) as H. destruct (stat d w); cbn in H; tauto. Qed.
+Proof. intros I. apply VI_CI. apply I. Qed.
 
-Lemma CI_env d s xs : Genv s -> CI d s -> Inv (invalidate d) (env_run s xs).
+Lemma CI_env d s xs : Genv s -> CI d s -> VIA d s -> Inv (invalidate d) (env_run s xs).
 Proof.
-  intros G C. destruct (env_run_ok xs s G) as [G' [So Sv]]. constructor; auto; try (cbn; tauto).
-  intros v. rewrite stat_invalidate. specialize (C v). rewrite <- So in C.
-  destruct (stat d v); cbn; auto.
+  intros G C V. destruct (env_run_ok xs s G) as [G' [So [Sv [St [Sf Sk]]]]].
+  assert (C' : CI (invalidate d) (env_run s xs)).
+  { intros v. rewrite stat_invalidate. specialize (C v). rewrite <- So in C. destruct (stat d v); cbn; auto. }
+  constructor; auto; try (cbn; tauto).
+  - intros v. specialize (C' v). destruct (stat (invalidate d) v) eqn:E; cbn; auto.
+    rewrite stat_invalidate in E. destruct (stat d v); discriminate.
+  - apply (VIA_transfer d (invalidate d) s _ V G' C' (via_sub_invalidate d)); auto. intros; rewrite Sv; auto.
 Qed.
 
 Lemma CI_drop d s s' v after d1 : CI d s -> drop_one d v after = Some d1 ->
@@ -500,75 +694,121 @@ Lemma CI_drop d s s' v after d1 : CI d s -> drop_one d v after = Some d1 ->
   (forall w, own_count s' w + (if Nat.eqb w v then 1 else 0) = own_count s w) -> CI d1 s'.
 Proof.
   intros C Dr Ha Hc w. specialize (C w). specialize (Hc w). unfold drop_one in Dr.
-  destruct (stat d v) as [| |[|n]] eqn:Ev; try discriminate; inversion Dr; subst d1; clear Dr;
+  destruct (stat d v) as [| | |[|n]] eqn:Ev; try discriminate; inversion Dr; subst d1; clear Dr;
     rewrite stat_set_stat; destruct (Nat.eqb w v) eqn:Ew.
   - apply Nat.eqb_eq in Ew. subst w. rewrite Ev in C. destruct Ha as [-> | ->]; lia.
-  - destruct (stat d w); lia.
+  - rewrite stat_unvia. destruct (stat d w); try lia. destruct (Nat.eqb t v); lia.
   - apply Nat.eqb_eq in Ew. subst w. rewrite Ev in C. lia.
   - destruct (stat d w); lia.
+Qed.
+
+(* the borrows survive our own release of a reference, as far as their tuples stay owned *)
+Lemma VIA_release d d1 s r : VIA d s -> In r (refs s) -> (forall c o, r <> (HItem c, o)) ->
+  Genv (release s r) -> CI d1 (release s r) -> via_sub d d1 -> VIA d1 (release s r).
+Proof.
+  intros V Hr Nr G C Sub. apply (VIA_transfer d d1 s (release s r) V G C Sub).
+  - intros. rewrite release_venv. auto.
+  - rewrite release_tuples. apply incl_refl.
+  - intros c o _ Hi Nf. apply release_item_kept; auto.
 Qed.
 
 Lemma lookup_cons {A} v (o : A) l w : lookup ((v, o) :: l) w = if Nat.eqb w v then Some o else lookup l w.
 Proof. reflexivity. Qed.
 
-(* v := a borrowed pointer to the live object o *)
-Lemma Inv_set_var d s v o : Inv d s -> is_owned (stat d v) = false -> has_ref (refs s) o = true ->
-  Inv (set_stat d v SFresh) (set_var s v o).
+(* v := a pointer of status x (not owned) to the object o; x's own clause is proved by the caller *)
+Lemma Inv_set_var d s v o x : Inv d s -> is_owned (stat d v) = false -> is_owned x = false ->
+  VI x (set_var s v o) v ->
+  (forall t, x = SVia t -> is_owned (stat d t) = true -> t <> v /\ TV (set_var s v o) v t) ->
+  Inv (reassign d v x) (set_var s v o).
 Proof.
-  intros I No Hr. pose proof (not_owned_count d s v I No) as C0. pose proof (i_g d s I) as G.
-  constructor.
-  - constructor; cbn.
+  intros I No Nx Vx Tx. pose proof (not_owned_count d s v I No) as C0. pose proof (i_g d s I) as G.
+  assert (G' : Genv (set_var s v o)).
+  { constructor; cbn.
     + apply G. + apply G. + apply G.
     + intros w o' H. destruct (Nat.eqb w v) eqn:E.
       * apply Nat.eqb_eq in E. subst w. exfalso. eapply count0_no_ref; eauto.
       * eapply g_var; eauto.
-    + apply G.
-  - intros w. rewrite stat_set_stat. destruct (Nat.eqb w v) eqn:E.
-    + apply Nat.eqb_eq in E. subst w. cbn. split; auto. exists o. rewrite Nat.eqb_refl. auto.
-    + eapply VI_frame; [apply (i_v d s I) | reflexivity | cbn; rewrite E; reflexivity | auto].
+    + apply G. }
+  assert (V' : forall w, VI (stat (reassign d v x) w) (set_var s v o) w).
+  { intros w. rewrite stat_reassign. destruct (Nat.eqb w v) eqn:E.
+    + apply Nat.eqb_eq in E. subst w. exact Vx.
+    + apply VI_unvia. eapply VI_frame; [apply (i_v d s I) | reflexivity | cbn; rewrite E; reflexivity | auto]. }
+  constructor; auto.
+  - intros w t H1 H2. rewrite stat_reassign in H1. destruct (Nat.eqb w v) eqn:E.
+    + apply Nat.eqb_eq in E. subst w x. rewrite stat_reassign in H2.
+      destruct (Nat.eqb t v) eqn:E2; [rewrite Nx in H2; discriminate|]. rewrite owned_unvia in H2.
+      apply (Tx t eq_refl H2).
+    + rewrite stat_unvia in H1. destruct (stat d w) eqn:Es; try discriminate.
+      destruct (Nat.eqb t0 v) eqn:E3; [discriminate|]. inversion H1; subst t0.
+      rewrite stat_reassign, E3, owned_unvia in H2.
+      destruct (i_via d s I w t Es H2) as [o1 [c [L1 [L2 [T Hi]]]]]. exists o1, c. cbn. rewrite E, E3. auto.
   - intros sl Hs. rewrite slot_get_set_var. apply (i_e d s I). exact Hs.
   - intros sl Hs. rewrite slot_get_set_var. apply (i_f d s I). exact Hs.
 Qed.
 
-(* v := a new reference to o *)
-Lemma Inv_newref d s v o n' : Inv d s -> is_owned (stat d v) = false ->
+(* v := a new reference to o (an existing object, or a fresh one born with the items l) *)
+Lemma Inv_newref d s v o n' tp l : Inv d s -> is_owned (stat d v) = false ->
   ~ In o (freed s) -> o < n' -> next s <= n' ->
-  Inv (set_stat d v (SOwned 0)) (mkSt ((HVar v, o) :: refs s) (freed s) n' ((v, o) :: venv s)).
+  (forall i, In i l -> has_ref (refs s) i = true) ->
+  incl (tuples s) tp ->
+  Inv (reassign d v (SOwned 0))
+      (mkSt ((HVar v, o) :: map (fun i => (HItem o, i)) l ++ refs s) (freed s) tp n' ((v, o) :: venv s)).
 Proof.
-  intros I No Nf Hb Hn. pose proof (not_owned_count d s v I No) as C0. pose proof (i_g d s I) as G.
-  constructor.
-  - constructor; cbn.
-    + intros h x H. destruct H as [H|H]; [inversion H; subst; auto | eapply g_live; eauto].
-    + intros h x H. destruct H as [H|H]; [inversion H; subst; auto | apply (g_bound s G) in H; lia].
+  intros I No Nf Hb Hn Hl Htp. pose proof (not_owned_count d s v I No) as C0. pose proof (i_g d s I) as G.
+  set (its := map (fun i => (HItem o, i)) l).
+  assert (Hits : forall x, In x its -> exists i, x = (HItem o, i) /\ has_ref (refs s) i = true).
+  { intros x Hx. apply in_map_iff in Hx. destruct Hx as [i [E Hi]]. exists i. split; auto. }
+  set (s' := mkSt ((HVar v, o) :: its ++ refs s) (freed s) tp n' ((v, o) :: venv s)).
+  assert (G' : Genv s').
+  { constructor; cbn.
+    + intros h x [H|H]; [inversion H; subst; auto|]. apply in_app_or in H. destruct H as [H|H]; [|eapply g_live; eauto].
+      destruct (Hits _ H) as [i [E L]]. inversion E; subst. apply (live_facts s i G L).
+    + intros h x [H|H]; [inversion H; subst; auto|]. apply in_app_or in H. destruct H as [H|H]; [|apply (g_bound s G) in H; lia].
+      destruct (Hits _ H) as [i [E L]]. inversion E; subst. destruct (live_facts s i G L). lia.
     + intros x H. apply (g_fbound s G) in H. lia.
-    + intros w x H. destruct H as [H|H].
+    + intros w x [H|H].
       * inversion H; subst. rewrite Nat.eqb_refl. reflexivity.
-      * destruct (Nat.eqb w v) eqn:E.
+      * apply in_app_or in H. destruct H as [H|H]; [destruct (Hits _ H) as [i [E _]]; inversion E|].
+        destruct (Nat.eqb w v) eqn:E.
         -- apply Nat.eqb_eq in E. subst w. exfalso. eapply count0_no_ref; eauto.
         -- eapply g_var; eauto.
-    + intros x [H|H]; [inversion H | eapply g_noleak; eauto].
-  - intros w. rewrite stat_set_stat. destruct (Nat.eqb w v) eqn:E.
-    + apply Nat.eqb_eq in E. subst w. cbn. rewrite Nat.eqb_refl. cbn.
-      change (S (own_count s v) = 1). lia.
-    + eapply VI_frame; [apply (i_v d s I) | | cbn; rewrite E; reflexivity | ].
-      * unfold own_count. cbn. rewrite (Nat.eqb_sym v w), E. reflexivity.
-      * intros x Hx. apply has_ref_cons. exact Hx.
-  - intros sl Hs. apply (i_e d s I) in Hs. unfold slot_get in *. cbn. exact Hs.
-  - intros sl Hs. apply (i_f d s I) in Hs. unfold slot_get in *. cbn. exact Hs.
+    + intros x [H|H]; [inversion H|]. apply in_app_or in H. destruct H as [H|H]; [|eapply g_noleak; eauto].
+      destruct (Hits _ H) as [i [E _]]. inversion E. }
+  assert (Cn : forall w, own_count s' w = own_count s w + (if Nat.eqb w v then 1 else 0)).
+  { intros w. unfold own_count, s', its. cbn [refs filter fst holder_eqb]. rewrite (Nat.eqb_sym v w).
+    change (fun p : holder * obj => holder_eqb (fst p) (HVar w)) with (is_var w).
+    rewrite filter_var_items. destruct (Nat.eqb w v); cbn [length]; [rewrite Nat.add_1_r | rewrite Nat.add_0_r]; reflexivity. }
+  assert (V' : forall w, VI (stat (reassign d v (SOwned 0)) w) s' w).
+  { intros w. rewrite stat_reassign. destruct (Nat.eqb w v) eqn:E.
+    + apply Nat.eqb_eq in E. subst w. cbn [VI]. rewrite Cn, Nat.eqb_refl. lia.
+    + apply VI_unvia. eapply VI_frame; [apply (i_v d s I) | | cbn; rewrite E; reflexivity | ].
+      * rewrite Cn, E. lia.
+      * intros x Hx. apply has_ref_In in Hx. destruct Hx as [h Hx]. apply has_ref_In. exists h. right. apply in_or_app. right. exact Hx. }
+  constructor; auto.
+  - apply (VIA_transfer d _ s s' (i_via d s I) G' (VI_CI _ _ V') (via_sub_reassign d v (SOwned 0) ltac:(intros; discriminate))); auto.
+    + intros w t H1. rewrite stat_reassign in H1. cbn.
+      destruct (Nat.eqb w v) eqn:E; [discriminate|]. rewrite stat_unvia in H1.
+      destruct (stat d w); try discriminate. destruct (Nat.eqb t0 v) eqn:E3; [discriminate|]. inversion H1; subst. rewrite E3. auto.
+    + intros c x _ Hx _. right. apply in_or_app. right. exact Hx.
+  - intros sl Hs. apply (i_e d s I) in Hs. apply slot_get_None. intros x [H|H]; [inversion H|].
+    apply in_app_or in H. destruct H as [H|H]; [destruct (Hits _ H) as [i [E _]]; inversion E|].
+    apply (proj1 (slot_get_None s sl) Hs x H).
+  - intros sl Hs. pose proof (i_f d s I sl Hs) as F. destruct (slot_get s sl) as [x|] eqn:E; [|congruence].
+    apply slot_get_In in E. intros N. apply (proj1 (slot_get_None _ sl) N x). right. apply in_or_app. right. exact E.
 Qed.
 
 (* v's reference moves to the variable r (which holds nothing) *)
 Lemma moveref_inv d s r v d1 o :
   Inv d s -> is_owned (stat d r) = false -> r <> v -> drop_one d v SStale = Some d1 ->
   lookup (venv s) v = Some o -> In (HVar v, o) (refs s) ->
-  Inv (set_stat d1 r (SOwned 0))
-      (mkSt ((HVar r, o) :: remove1 (HVar v, o) (refs s)) (freed s) (next s) ((r, o) :: venv s)).
+  Inv (reassign d1 r (SOwned 0))
+      (mkSt ((HVar r, o) :: remove1 (HVar v, o) (refs s)) (freed s) (tuples s) (next s) ((r, o) :: venv s)).
 Proof.
   intros I Nr Nrv Dr Lv Hi. pose proof (i_g d s I) as G.
   pose proof (not_owned_count d s r I Nr) as Cr.
-  assert (Cnt : forall w, own_count (mkSt ((HVar r, o) :: remove1 (HVar v, o) (refs s)) (freed s) (next s) ((r, o) :: venv s)) w
-                          + (if Nat.eqb w v then 1 else 0) = own_count s w + (if Nat.eqb w r then 1 else 0)).
-  { intros w. unfold own_count. cbn [refs filter fst holder_eqb].
+  set (s' := mkSt ((HVar r, o) :: remove1 (HVar v, o) (refs s)) (freed s) (tuples s) (next s) ((r, o) :: venv s)).
+  assert (Cnt : forall w, own_count s' w + (if Nat.eqb w v then 1 else 0) = own_count s w + (if Nat.eqb w r then 1 else 0)).
+  { intros w. unfold own_count, s'. cbn [refs filter fst holder_eqb].
     change (fun p : holder * obj => holder_eqb (fst p) (HVar w)) with (is_var w).
     rewrite (Nat.eqb_sym r w).
     assert (E : length (filter (is_var w) (remove1 (HVar v, o) (refs s))) + (if Nat.eqb w v then 1 else 0)
@@ -581,8 +821,8 @@ Proof.
     destruct (Nat.eqb w r); cbn [length].
     - rewrite Nat.add_1_r. cbn [Nat.add]. f_equal. exact E.
     - rewrite Nat.add_0_r. exact E. }
-  constructor.
-  - constructor; cbn.
+  assert (G' : Genv s').
+  { constructor; cbn.
     + intros h x [H|H]; [inversion H; subst; eapply g_live; eauto | eapply g_live; eauto; eapply In_remove1; eauto].
     + intros h x [H|H]; [inversion H; subst; eapply g_bound; eauto | eapply g_bound; eauto; eapply In_remove1; eauto].
     + apply G.
@@ -591,24 +831,38 @@ Proof.
       * apply In_remove1 in H. destruct (Nat.eqb w r) eqn:E.
         -- apply Nat.eqb_eq in E. subst w. exfalso. eapply count0_no_ref; eauto.
         -- eapply g_var; eauto.
-    + intros x [H|H]; [inversion H | eapply g_noleak; eauto; eapply In_remove1; eauto].
-  - intros w. specialize (Cnt w). pose proof (i_v d s I w) as Hw. rewrite stat_set_stat.
-    destruct (Nat.eqb w r) eqn:Er.
-    + apply Nat.eqb_eq in Er. subst w. cbn [VI].
-      assert (Nat.eqb r v = false) by (apply Nat.eqb_neq; auto). rewrite H in Cnt. lia.
-    + unfold drop_one in Dr. destruct (stat d v) as [| |[|n]] eqn:Ev; try discriminate; inversion Dr; subst d1; clear Dr;
-        rewrite stat_set_stat; destruct (Nat.eqb w v) eqn:Ew.
-      * apply Nat.eqb_eq in Ew. subst w. rewrite Ev in Hw. cbn in Hw. cbn [VI]. lia.
-      * eapply VI_frame; eauto; [lia | cbn; rewrite Er; reflexivity |].
-        intros x Hx. exact (moved_has_ref s v o (HVar r) x Hx).
-      * apply Nat.eqb_eq in Ew. subst w. rewrite Ev in Hw. cbn in Hw. cbn [VI]. lia.
-      * eapply VI_frame; eauto; [lia | cbn; rewrite Er; reflexivity |].
-        intros x Hx. exact (moved_has_ref s v o (HVar r) x Hx).
+    + intros x [H|H]; [inversion H | eapply g_noleak; eauto; eapply In_remove1; eauto]. }
+  assert (Mono : forall x, has_ref (refs s) x = true -> has_ref (refs s') x = true).
+  { intros x Hx. exact (moved_has_ref s v o (HVar r) x Hx). }
+  assert (Sub1 : via_sub d d1).
+  { apply (via_sub_drop d v SStale d1 Dr); [intros; discriminate | reflexivity]. }
+  assert (V1 : forall w, w <> r -> VI (stat d1 w) s' w).
+  { intros w Nw. specialize (Cnt w). pose proof (i_v d s I w) as Hw.
+    assert (Er : Nat.eqb w r = false) by (apply Nat.eqb_neq; auto). rewrite Er in Cnt.
+    unfold drop_one in Dr. destruct (stat d v) as [| | |[|n]] eqn:Ev; try discriminate; inversion Dr; subst d1;
+      rewrite stat_set_stat; destruct (Nat.eqb w v) eqn:Ew.
+    - apply Nat.eqb_eq in Ew. subst w. rewrite Ev in Hw. cbn in Hw. cbn [VI]. lia.
+    - apply VI_unvia. eapply VI_frame; eauto; [lia | cbn; rewrite Er; reflexivity].
+    - apply Nat.eqb_eq in Ew. subst w. rewrite Ev in Hw. cbn in Hw. cbn [VI]. lia.
+    - eapply VI_frame; eauto; [lia | cbn; rewrite Er; reflexivity]. }
+  assert (V' : forall w, VI (stat (reassign d1 r (SOwned 0)) w) s' w).
+  { intros w. rewrite stat_reassign. destruct (Nat.eqb w r) eqn:Er.
+    - apply Nat.eqb_eq in Er. subst w. cbn [VI]. specialize (Cnt r).
+      assert (Nat.eqb r v = false) by (apply Nat.eqb_neq; auto). rewrite H, Nat.eqb_refl in Cnt. lia.
+    - apply VI_unvia. apply V1. apply Nat.eqb_neq; auto. }
+  constructor; auto.
+  - apply (VIA_transfer d _ s s' (i_via d s I) G' (VI_CI _ _ V')
+             (via_sub_trans _ _ _ Sub1 (via_sub_reassign d1 r (SOwned 0) ltac:(intros; discriminate)))); auto.
+    + intros w t H1. rewrite stat_reassign in H1. cbn.
+      destruct (Nat.eqb w r) eqn:E; [discriminate|]. rewrite stat_unvia in H1.
+      destruct (stat d1 w); try discriminate. destruct (Nat.eqb t0 r) eqn:E3; [discriminate|]. inversion H1; subst. rewrite E3. auto.
+    + apply incl_refl.
+    + intros c x _ Hx _. right. apply In_remove1_neq; auto. discriminate.
   - intros sl Hs. assert (Hs' : In sl (d_empty d)).
-    { unfold drop_one in Dr. destruct (stat d v) as [| |[|n]]; try discriminate; inversion Dr; subst; exact Hs. }
+    { unfold drop_one in Dr. destruct (stat d v) as [| | |[|n]]; try discriminate; inversion Dr; subst; exact Hs. }
     apply (i_e d s I) in Hs'. unfold slot_get in *. cbn. rewrite find_remove1_neg; auto.
   - intros sl Hs. assert (Hs' : In sl (d_full d)).
-    { unfold drop_one in Dr. destruct (stat d v) as [| |[|n]]; try discriminate; inversion Dr; subst; exact Hs. }
+    { unfold drop_one in Dr. destruct (stat d v) as [| | |[|n]]; try discriminate; inversion Dr; subst; exact Hs. }
     apply (i_f d s I) in Hs'. unfold slot_get in *. cbn. rewrite find_remove1_neg; auto.
 Qed.
 
@@ -616,6 +870,32 @@ Definition not_return (e : ev) : Prop := match e with EReturn _ => False | _ => 
 
 Lemma with_obj_ok s v o f : deref s v = inl (Some o) -> with_obj s v f = f o.
 Proof. unfold with_obj. intros ->. reflexivity. Qed.
+
+Lemma VI_fresh_set s v o : own_count s v = 0 -> has_ref (refs s) o = true -> VI SFresh (set_var s v o) v.
+Proof. intros C H. cbn. split; auto. exists o. rewrite Nat.eqb_refl. auto. Qed.
+
+(* a reference that is not ours and not a slot's is added *)
+Lemma Inv_add_ref d s h o : Inv d s -> has_ref (refs s) o = true -> (forall v, h <> HVar v) -> h <> HLeak ->
+  (forall sl, h <> HSlot sl) -> Inv d (add_ref s (h, o)).
+Proof.
+  intros I L Nv Nl Ns. pose proof (i_g d s I) as G. destruct (live_facts s o G L) as [Nf Hb].
+  assert (G' : Genv (add_ref s (h, o))) by (apply add_ref_G; auto; intros v E; exfalso; eapply Nv; eauto).
+  assert (V' : forall w, VI (stat d w) (add_ref s (h, o)) w).
+  { intros w. eapply VI_frame; [apply (i_v d s I) | | reflexivity | intros x Hx; apply has_ref_cons; exact Hx].
+    rewrite add_ref_count. rewrite (holder_eqb_neq h (HVar w)) by auto. lia. }
+  constructor; auto.
+  - apply (VIA_transfer d d s _ (i_via d s I) G' (VI_CI _ _ V') (via_sub_refl d)); auto.
+    + apply incl_refl.
+    + intros c x _ Hx _. right. exact Hx.
+  - intros sl Hs. apply (i_e d s I) in Hs. unfold slot_get in *. cbn. rewrite (holder_eqb_neq h (HSlot sl)) by auto. exact Hs.
+  - intros sl Hs. apply (i_f d s I) in Hs. unfold slot_get in *. cbn. rewrite (holder_eqb_neq h (HSlot sl)) by auto. exact Hs.
+Qed.
+
+Lemma drop_slots d v after d1 : drop_one d v after = Some d1 -> d_empty d1 = d_empty d /\ d_full d1 = d_full d.
+Proof. unfold drop_one. destruct (stat d v) as [| | |[|n]]; intros H; inversion H; auto. Qed.
+
+Lemma drop_owned d v after d1 : drop_one d v after = Some d1 -> exists n, stat d v = SOwned n.
+Proof. unfold drop_one. destruct (stat d v); intros H; try discriminate. eauto. Qed.
 
 Lemma step_ok strict orc d s k e d' : Inv d s -> dstep strict d e = Some d' -> not_return e ->
   match step strict orc s k e with
@@ -629,7 +909,8 @@ Proof.
     destruct (negb (is_owned (stat d v)) && mem s0 (d_full d)) eqn:C; [|discriminate]. inversion Ds; subst d'.
     apply andb_true_iff in C. destruct C as [C1 C2]. apply negb_true_iff in C1. apply mem_In in C2.
     pose proof (i_f d s I _ C2) as F. destruct (slot_get s s0) as [o|] eqn:E; [|congruence].
-    apply Inv_set_var; auto. apply has_ref_In. exists (HSlot s0). apply slot_get_In; auto.
+    apply Inv_set_var; auto; [|intros; discriminate].
+    apply VI_fresh_set; [eapply not_owned_count; eauto|]. apply has_ref_In. exists (HSlot s0). apply slot_get_In; auto.
   - (* EFetchItem *)
     destruct (negb (is_owned (stat d v)) && valid d d0) eqn:C; [|discriminate]. inversion Ds; subst d'.
     apply andb_true_iff in C. destruct C as [C1 C2]. apply negb_true_iff in C1.
@@ -637,38 +918,83 @@ Proof.
     destruct (nth_error (items_of s c) (o_pick orc k)) as [o|] eqn:E; auto.
     apply nth_error_In in E. unfold items_of in E. apply in_map_iff in E. destruct E as [[h o'] [E1 E2]].
     cbn in E1. subst o'. apply filter_In in E2. destruct E2 as [E2 _].
-    apply Inv_set_var; auto. apply has_ref_In. eauto.
+    apply Inv_set_var; auto; [|intros; discriminate].
+    apply VI_fresh_set; [eapply not_owned_count; eauto|]. apply has_ref_In. eauto.
+  - (* EFetchTuple *)
+    destruct (negb (is_owned (stat d v)) && is_owned (stat d t) && negb (Nat.eqb v t)) eqn:C; [|discriminate].
+    inversion Ds; subst d'. apply andb_true_iff in C. destruct C as [C C3]. apply andb_true_iff in C. destruct C as [C1 C2].
+    apply negb_true_iff in C1, C3. apply Nat.eqb_neq in C3.
+    assert (Vt : valid d t = true) by (unfold valid; destruct (stat d t); auto; discriminate).
+    destruct (valid_deref d s t I Vt) as [c [Lt [_ [_ [_ Dc]]]]]. rewrite (with_obj_ok _ _ _ _ Dc).
+    destruct (mem c (tuples s)) eqn:Mt; auto. apply mem_In in Mt.
+    destruct (nth_error (items_of s c) (o_pick orc k)) as [o|] eqn:E; auto.
+    apply nth_error_In in E. unfold items_of in E. apply in_map_iff in E. destruct E as [[h o'] [E1 E2]].
+    cbn in E1. subst o'. apply filter_In in E2. destruct E2 as [E2 Eh]. cbn in Eh. apply holder_eqb_eq in Eh. subst h.
+    apply Inv_set_var; auto.
+    + cbn. eapply not_owned_count; eauto.
+    + intros t0 Et _. inversion Et; subst t0. split; [auto|]. exists o, c. cbn. rewrite Nat.eqb_refl.
+      assert (Nat.eqb t v = false) by (apply Nat.eqb_neq; auto). rewrite H. auto.
+  - (* EForget *)
+    inversion Ds; subst d'. constructor; auto.
+    + intros w. rewrite stat_forget. pose proof (i_v d s I w) as H. destruct (stat d w); auto.
+    + intros w t H1 _. rewrite stat_forget in H1. destruct (stat d w); discriminate.
+    + apply I.
+    + apply I.
   - (* ENewRef *)
     destruct (negb (is_owned (stat d v))) eqn:C; [|discriminate]. inversion Ds; subst d'.
     apply negb_true_iff in C. destruct (live s (o_pick orc k)) eqn:L.
-    + destruct (live_facts s _ G L). apply (Inv_newref d s v (o_pick orc k) (next s)); auto.
-    + cbn. apply (Inv_newref d s v (next s) (S (next s))); auto.
-      intros F. apply (g_fbound s G) in F. lia.
+    + destruct (live_facts s _ G L).
+      apply (Inv_newref d s v (o_pick orc k) (next s) (tuples s) []); auto; try (intros i []); apply incl_refl.
+    + unfold alloc. cbn [fst snd set_var refs freed tuples next venv].
+      apply (Inv_newref d s v (next s) (S (next s))
+               (if fst (o_new orc k) then next s :: tuples s else tuples s)
+               (filter (fun i => has_ref (refs s) i) (snd (o_new orc k)))); auto;
+        try (intros F; apply (g_fbound s G) in F; lia);
+        try (intros i Hi; apply filter_In in Hi; tauto).
+      destruct (fst (o_new orc k)); [apply incl_tl|]; apply incl_refl.
   - (* EIncref *)
-    destruct (valid d v) eqn:V; [|discriminate]. inversion Ds; subst d'.
+    destruct (valid d v) eqn:V; [|discriminate]. inversion Ds; subst d'. clear Ds.
     destruct (valid_deref d s v I V) as [o [Lv [Nf [Hb [Hr Dv]]]]]. rewrite (with_obj_ok _ _ _ _ Dv).
-    constructor.
-    + apply add_ref_G; auto. intros w E. inversion E; subst. auto. discriminate.
-    + intros w. rewrite stat_set_stat. destruct (Nat.eqb w v) eqn:E.
-      * apply Nat.eqb_eq in E. subst w. pose proof (i_v d s I v) as Hv. unfold valid in V.
-        assert (AC : own_count (add_ref s (HVar v, o)) v = S (own_count s v)).
-        { rewrite add_ref_count. cbn. rewrite Nat.eqb_refl. lia. }
-        destruct (stat d v); try discriminate; cbn [VI] in Hv |- *; rewrite AC; [destruct Hv; lia | lia].
-      * eapply VI_frame; [apply (i_v d s I) | | reflexivity | ].
-        -- rewrite add_ref_count. cbn. rewrite (Nat.eqb_sym v w), E. lia.
-        -- intros x Hx. apply has_ref_cons. exact Hx.
-    + intros sl Hs. apply (i_e d s I) in Hs. unfold slot_get in *. cbn. exact Hs.
-    + intros sl Hs. apply (i_f d s I) in Hs. unfold slot_get in *. cbn. exact Hs.
+    set (d' := match stat d v with SOwned n => set_stat d v (SOwned (S n)) | _ => reassign d v (SOwned 0) end).
+    assert (G' : Genv (add_ref s (HVar v, o))).
+    { apply add_ref_G; auto. intros w E. inversion E; subst. auto. discriminate. }
+    assert (AC : forall w, own_count (add_ref s (HVar v, o)) w = own_count s w + (if Nat.eqb w v then 1 else 0)).
+    { intros w. rewrite add_ref_count. cbn. rewrite (Nat.eqb_sym v w). reflexivity. }
+    assert (Sub : via_sub d d').
+    { unfold d'. destruct (stat d v) eqn:Es; try (apply via_sub_reassign; intros; discriminate).
+      apply via_sub_set; [intros; discriminate | rewrite Es; auto]. }
+    assert (V' : forall w, VI (stat d' w) (add_ref s (HVar v, o)) w).
+    { intros w. specialize (AC w). pose proof (i_v d s I w) as Hw. unfold d'.
+      destruct (Nat.eqb w v) eqn:E.
+      - apply Nat.eqb_eq in E. subst w. unfold valid in V.
+        cbv iota in AC.
+        destruct (stat d v) eqn:Es; try discriminate; rewrite ?stat_reassign, ?stat_set_stat, Nat.eqb_refl; cbn [VI] in *.
+        + destruct Hw as [Hw0 _]. lia.
+        + lia.
+        + lia.
+      - assert (F : VI (stat d w) (add_ref s (HVar v, o)) w).
+        { eapply VI_frame; eauto; [lia | intros x Hx; apply has_ref_cons; exact Hx]. }
+        destruct (stat d v); rewrite ?stat_reassign, ?stat_set_stat, E; try apply VI_unvia; exact F. }
+    constructor; auto.
+    + apply (VIA_transfer d d' s _ (i_via d s I) G' (VI_CI _ _ V') Sub); auto.
+      * apply incl_refl.
+      * intros c x _ Hx _. right. exact Hx.
+    + intros sl Hs. assert (Hs' : In sl (d_empty d)) by (unfold d' in Hs; destruct (stat d v); exact Hs).
+      apply (i_e d s I) in Hs'. unfold slot_get in *. cbn. exact Hs'.
+    + intros sl Hs. assert (Hs' : In sl (d_full d)) by (unfold d' in Hs; destruct (stat d v); exact Hs).
+      apply (i_f d s I) in Hs'. unfold slot_get in *. cbn. exact Hs'.
   - (* EDecref *)
     destruct (drop_one d v SStale) as [d1|] eqn:Dr; [|discriminate]. inversion Ds; subst d'.
-    assert (Ow : exists n, stat d v = SOwned n).
-    { unfold drop_one in Dr. destruct (stat d v); try discriminate. eauto. }
-    destruct Ow as [n Ow]. destruct (owned_ref d s v n I Ow) as [o [Lv [Hi _]]]. rewrite Lv.
+    destruct (drop_owned _ _ _ _ Dr) as [n Ow]. destruct (owned_ref d s v n I Ow) as [o [Lv [Hi _]]]. rewrite Lv.
     pose proof Hi as Hh. apply has_In in Hh. rewrite Hh.
-    apply CI_env; [apply release_G; auto|].
-    eapply CI_drop; [apply Inv_CI; eauto | eauto | auto |].
-    intros w. pose proof (release_count s (HVar v, o) w Hi) as RC. unfold is_var in RC. cbn in RC.
-    rewrite (Nat.eqb_sym v w) in RC. exact RC.
+    assert (G1 : Genv (release s (HVar v, o))) by (apply release_G; auto).
+    assert (C1 : CI d1 (release s (HVar v, o))).
+    { eapply CI_drop; [apply Inv_CI; eauto | eauto | auto |].
+      intros w. pose proof (release_count s (HVar v, o) w Hi) as RC. unfold is_var in RC. cbn in RC.
+      rewrite (Nat.eqb_sym v w) in RC. exact RC. }
+    apply CI_env; auto.
+    apply (VIA_release d d1 s _ (i_via d s I) Hi); auto; [intros; discriminate|].
+    apply (via_sub_drop d v SStale d1 Dr); [intros; discriminate | reflexivity].
   - (* EMayCall *) inversion Ds; subst d'. apply Inv_env; auto.
   - (* EKeyCall *) inversion Ds; subst d'. destruct strict; [apply Inv_env; auto | auto].
   - (* EUse *)
@@ -678,39 +1004,25 @@ Proof.
     destruct (valid d d0 && valid d v) eqn:V; [|discriminate]. inversion Ds; subst d'.
     apply andb_true_iff in V. destruct V as [V1 V2].
     destruct (valid_deref d s d0 I V1) as [c [_ [_ [_ [_ Dc]]]]]. rewrite (with_obj_ok _ _ _ _ Dc).
-    destruct (valid_deref d s v I V2) as [o [_ [Nf [Hb [_ Dv]]]]]. rewrite (with_obj_ok _ _ _ _ Dv).
-    constructor.
-    + apply add_ref_G; auto; intros; discriminate.
-    + intros w. eapply VI_frame; [apply (i_v _ s I) | | reflexivity | ].
-      * rewrite add_ref_count. cbn. lia.
-      * intros x Hx. apply has_ref_cons. exact Hx.
-    + intros sl Hs. apply (i_e _ s I) in Hs. unfold slot_get in *. cbn. exact Hs.
-    + intros sl Hs. apply (i_f _ s I) in Hs. unfold slot_get in *. cbn. exact Hs.
+    destruct (valid_deref d s v I V2) as [o [_ [Nf [Hb [Hr Dv]]]]]. rewrite (with_obj_ok _ _ _ _ Dv).
+    apply Inv_add_ref; auto; intros; discriminate.
   - (* EStealItem *)
     destruct (valid d d0 && negb (Nat.eqb d0 v)) eqn:V; [|discriminate].
     apply andb_true_iff in V. destruct V as [V1 _].
     destruct (valid_deref d s d0 I V1) as [c [_ [_ [_ [_ Dc]]]]]. rewrite (with_obj_ok _ _ _ _ Dc).
-    assert (Ow : exists n, stat d v = SOwned n).
-    { unfold drop_one in Ds. destruct (stat d v); try discriminate. eauto. }
-    destruct Ow as [n Ow]. destruct (owned_ref d s v n I Ow) as [o [Lv [Hi _]]]. rewrite Lv.
+    destruct (drop_owned _ _ _ _ Ds) as [n Ow]. destruct (owned_ref d s v n I Ow) as [o [Lv [Hi _]]]. rewrite Lv.
     rewrite (hand_over_moved s v o (HItem c) Hi).
-    destruct (drop_one_inv d s v SFresh d' o (HItem c) I Ds Lv Hi) as [G' [V' _]]; try discriminate; auto.
-    assert (Es : d_empty d' = d_empty d /\ d_full d' = d_full d).
-    { unfold drop_one in Ds. rewrite Ow in Ds. destruct n; inversion Ds; auto. }
-    destruct Es as [Es1 Es2]. constructor; auto.
+    destruct (drop_one_inv d s v SFresh d' o (HItem c) I Ds Lv Hi) as [G' [V' [A' _]]]; try discriminate; auto.
+    destruct (drop_slots _ _ _ _ Ds) as [Es1 Es2]. constructor; auto.
     + intros sl Hs. rewrite Es1 in Hs. rewrite moved_slot. cbn. apply (i_e d s I); auto.
     + intros sl Hs. rewrite Es2 in Hs. rewrite moved_slot. cbn. apply (i_f d s I); auto.
   - (* EStoreSlot *)
     destruct (mem s0 (d_empty d)) eqn:M; [|discriminate]. apply mem_In in M.
     destruct (drop_one d v SFresh) as [d1|] eqn:Dr; [|discriminate]. inversion Ds; subst d'. clear Ds.
-    assert (Ow : exists n, stat d v = SOwned n).
-    { unfold drop_one in Dr. destruct (stat d v); try discriminate. eauto. }
-    destruct Ow as [n Ow]. destruct (owned_ref d s v n I Ow) as [o [Lv [Hi _]]]. rewrite Lv.
+    destruct (drop_owned _ _ _ _ Dr) as [n Ow]. destruct (owned_ref d s v n I Ow) as [o [Lv [Hi _]]]. rewrite Lv.
     rewrite (i_e d s I _ M). rewrite (hand_over_moved s v o (HSlot s0) Hi).
-    destruct (drop_one_inv d s v SFresh d1 o (HSlot s0) I Dr Lv Hi) as [G' [V' _]]; try discriminate; auto.
-    assert (Es : d_empty d1 = d_empty d /\ d_full d1 = d_full d).
-    { unfold drop_one in Dr. rewrite Ow in Dr. destruct n; inversion Dr; auto. }
-    destruct Es as [Es1 Es2]. constructor; auto.
+    destruct (drop_one_inv d s v SFresh d1 o (HSlot s0) I Dr Lv Hi) as [G' [V' [A' _]]]; try discriminate; auto.
+    destruct (drop_slots _ _ _ _ Dr) as [Es1 Es2]. constructor; auto.
     + intros sl Hs. cbn in Hs. rewrite Es1 in Hs. unfold remove_nat in Hs. apply filter_In in Hs.
       destruct Hs as [Hs Hn]. rewrite moved_slot. cbn. apply negb_true_iff in Hn. rewrite Hn.
       apply (i_e d s I); auto.
@@ -719,9 +1031,8 @@ Proof.
       rewrite Es2 in Hs. apply (i_f d s I); auto.
   - (* ESwapSlot *)
     destruct (drop_one d v SFresh) as [d1|] eqn:Dr; [|discriminate]. inversion Ds; subst d'. clear Ds.
-    assert (Ow : exists n, stat d v = SOwned n).
-    { unfold drop_one in Dr. destruct (stat d v); try discriminate. eauto. }
-    destruct Ow as [n Ow]. destruct (owned_ref d s v n I Ow) as [o [Lv [Hi _]]]. rewrite Lv.
+    destruct (drop_owned _ _ _ _ Dr) as [n Ow]. destruct (owned_ref d s v n I Ow) as [o [Lv [Hi _]]]. rewrite Lv.
+    assert (Sub : via_sub d d1) by (apply (via_sub_drop d v SFresh d1 Dr); [intros; discriminate | reflexivity]).
     destruct (slot_get s s0) as [old|] eqn:Sg.
     + apply slot_get_In in Sg.
       change (set_refs s ((HExt, old) :: remove1 (HSlot s0, old) (refs s))) with (retag s (HSlot s0) old HExt).
@@ -732,21 +1043,32 @@ Proof.
       rewrite (hand_over_moved _ v o (HSlot s0) Hi0).
       assert (He : In (HExt, old) (refs (moved (retag s (HSlot s0) old HExt) v o (HSlot s0)))).
       { cbn. right. destruct (ref_eqb (HVar v, o) (HExt, old)) eqn:Er; [cbn in Er; discriminate|]. left; auto. }
-      apply CI_env.
-      * apply release_G; auto. apply moved_G; auto; intros; discriminate.
-      * eapply CI_drop; [apply Inv_CI; eauto | eauto | auto |].
+      set (s3 := release (moved (retag s (HSlot s0) old HExt) v o (HSlot s0)) (HExt, old)).
+      assert (G3 : Genv s3) by (apply release_G; auto; apply moved_G; auto; intros; discriminate).
+      assert (C3 : CI d1 s3).
+      { eapply CI_drop; [apply Inv_CI; eauto | eauto | auto |].
         intros w. pose proof (release_count _ (HExt, old) w He) as RC. change (is_var w (HExt, old)) with false in RC. cbv iota in RC.
         pose proof (moved_count (retag s (HSlot s0) old HExt) v o (HSlot s0) w Hi0) as MC.
-        rewrite retag_count in MC by (intros; discriminate). specialize (MC ltac:(intros; discriminate)). destruct (Nat.eqb w v); lia.
-    + rewrite (hand_over_moved s v o (HSlot s0) Hi). apply CI_env.
-      * apply moved_G; auto; intros; discriminate.
-      * eapply CI_drop; [apply Inv_CI; eauto | eauto | auto |].
-        intros w. apply moved_count; auto. intros; discriminate.
+        rewrite retag_count in MC by (intros; discriminate). specialize (MC ltac:(intros; discriminate)).
+        fold s3 in RC. destruct (Nat.eqb w v); lia. }
+      apply CI_env; auto.
+      apply (VIA_transfer d d1 s s3 (i_via d s I) G3 C3 Sub).
+      * intros. unfold s3. rewrite release_venv. auto.
+      * unfold s3. rewrite release_tuples. apply incl_refl.
+      * intros c x _ Hx Nf. unfold s3 in *. apply release_item_kept; auto; [|discriminate].
+        apply moved_item. cbn. right. apply In_remove1_neq; auto. discriminate.
+    + rewrite (hand_over_moved s v o (HSlot s0) Hi).
+      destruct (drop_one_inv d s v SFresh d1 o (HSlot s0) I Dr Lv Hi) as [G' [V' [A' _]]]; try discriminate; auto.
+      apply CI_env; auto. apply VI_CI. exact V'.
   - (* EClearSlot *)
     inversion Ds; subst d'. destruct (slot_get s s0) as [o|] eqn:Sg; [|apply Inv_env; auto].
-    apply slot_get_In in Sg. apply CI_env; [apply release_G; auto|].
-    intros w. pose proof (Inv_CI d s I w) as C. pose proof (release_count s (HSlot s0, o) w Sg) as RC. change (is_var w (HSlot s0, o)) with false in RC. cbv iota in RC.
-    rewrite Nat.add_0_r in RC. rewrite RC. exact C.
+    apply slot_get_In in Sg.
+    assert (G1 : Genv (release s (HSlot s0, o))) by (apply release_G; auto).
+    assert (C1 : CI d (release s (HSlot s0, o))).
+    { intros w. pose proof (Inv_CI d s I w) as C. pose proof (release_count s (HSlot s0, o) w Sg) as RC.
+      change (is_var w (HSlot s0, o)) with false in RC. cbv iota in RC. rewrite Nat.add_0_r in RC. rewrite RC. exact C. }
+    apply CI_env; auto.
+    apply (VIA_release d d s _ (i_via d s I) Sg); auto; [intros; discriminate | apply via_sub_refl].
   - (* EAssumeSlot *)
     inversion Ds; subst d'. destruct (slot_get s s0) as [o|] eqn:Sg; destruct full; auto.
     + constructor; try apply I. intros sl [Hs|Hs]; [subst; congruence | apply (i_f d s I); auto].
@@ -756,9 +1078,7 @@ Proof.
     destruct (negb (is_owned (stat d r)) && negb (Nat.eqb r v)) eqn:C; [|discriminate].
     apply andb_true_iff in C. destruct C as [C1 C2]. apply negb_true_iff in C1, C2. apply Nat.eqb_neq in C2.
     destruct (drop_one d v SStale) as [d1|] eqn:Dr; [|discriminate]. inversion Ds; subst d'. clear Ds.
-    assert (Ow : exists n, stat d v = SOwned n).
-    { unfold drop_one in Dr. destruct (stat d v); try discriminate. eauto. }
-    destruct Ow as [n Ow]. destruct (owned_ref d s v n I Ow) as [o [Lv [Hi _]]]. rewrite Lv.
+    destruct (drop_owned _ _ _ _ Dr) as [n Ow]. destruct (owned_ref d s v n I Ow) as [o [Lv [Hi _]]]. rewrite Lv.
     pose proof Hi as Hh. apply has_In in Hh. rewrite Hh.
     eapply moveref_inv; eauto.
   - (* EReturn *) destruct NR.
@@ -839,6 +1159,7 @@ Proof.
     + destruct (own_count s v) eqn:C; auto. exfalso.
       destruct (count_pos_In v s) as [o Ho]; [lia|]. destruct (R _ o Ho) as [_ [_ K]].
       destruct (K v eq_refl) as [K1 _]. apply mem_In in K1. congruence.
+  - intros v t H. rewrite stat_init in H. destruct (mem v params); discriminate.
   - cbn. tauto.
   - cbn. tauto.
 Qed.
@@ -857,7 +1178,7 @@ Proof.
   - apply negb_true_iff. apply has_leak_false. apply G.
   - apply forallb_forall. intros [h o] Hi. cbn. destruct h; auto.
     pose proof (In_count_pos _ _ _ Hi) as C. pose proof (V v) as Hv.
-    destruct (stat d v) as [| |n] eqn:Es; cbn in Hv; try lia.
+    destruct (stat d v) as [| | |n] eqn:Es; cbn in Hv; try lia.
     assert (L : exists x, lookup (d_stat d) v = Some x).
     { unfold stat in Es. destruct (lookup (d_stat d) v); [eauto | discriminate]. }
     destruct L as [x L]. destruct (lookup_Some_In _ _ _ L) as [x' Hx].
